@@ -11,6 +11,18 @@ OptSpace = TOpt(TSpace)
 OptInt = TOpt(TInt)
 
 
+# functional view of intersect for calls inside comprehensions (justified by the body-verified contract below, which has no precondition,
+# and by intersect being a deterministic function of its two arguments)
+IntersectF = z3.Function("intersect_fn", T.SpaceS, T.SpaceS, OptSpace.sort())
+_ix, _iy = z3.Const("x!if", T.SpaceS), z3.Const("y!if", T.SpaceS)
+AX_INTERSECTF = [z3.ForAll([_ix, _iy], z3.And(
+    OptSpace.is_none(IntersectF(_ix, _iy)) == z3.Exists([k], z3.And(indom(_ix, k), indom(_iy, k), _ix[k] != _iy[k])),
+    z3.Implies(z3.Not(OptSpace.is_none(IntersectF(_ix, _iy))), z3.And(
+        z3.ForAll([k], z3.If(indom(OptSpace.val(IntersectF(_ix, _iy)), k), OptSpace.val(IntersectF(_ix, _iy))[k], -1) ==
+                  z3.If(indom(_iy, k), _iy[k], z3.If(indom(_ix, k), _ix[k], -1))),
+        T.wf_space(OptSpace.val(IntersectF(_ix, _iy)))))), patterns=[IntersectF(_ix, _iy)])]
+
+
 def install(reg):
     # ------------------------------------------------------------------ intersect
     reg.add(Contract(
@@ -38,6 +50,7 @@ def install(reg):
             ], local_types={"result": TSpace}),
         },
     ))
+    reg.contracts["biobalm.space_utils.intersect"].pure_in_comprehension = lambda c, eng, st: Val(OptSpace, IntersectF(c.x, c.y))
 
     # ------------------------------------------------------------------ is_subspace
     reg.add(Contract(
